@@ -717,21 +717,52 @@ func checkConvertArm(p *Program, r *Report, key, arm, target string, ws workerSi
 		at := find(").YCbCrAt")
 		conv := find("color.YCbCrToRGB")
 		set := find(").SetNRGBA")
-		good := at != nil && conv != nil && set != nil && len(cf.Calls) == 3 && len(cf.Stores) == 0
-		why := "expected per pixel: YCbCrAt(j,i), color.YCbCrToRGB, SetNRGBA(j,i,·) and nothing else"
-		if good {
-			aa, ca, sa := realArgs(*at), realArgs(*conv), realArgs(*set)
-			px, _ := at.Res.(*Agg)
-			good = valKey(aa[0]) == "img" && isJI(aa, 1) && px != nil && len(ca) == 3 && valKey(ca[0]) == valKey(px.Elems[0]) && valKey(ca[1]) == valKey(px.Elems[1]) && valKey(ca[2]) == valKey(px.Elems[2]) && valKey(sa[0]) == out && isJI(sa, 1)
-			why = "pixel must be read at (j,i), converted with YCbCrToRGB(Y, Cb, Cr) and written at (j,i)"
-			if good {
-				col, _ := sa[3].(*Agg)
-				tp, _ := conv.Res.(Tuple)
-				good = col != nil && len(col.Elems) == 4 && len(tp) == 3 && valKey(col.Elems[0]) == valKey(tp[0]) && valKey(col.Elems[1]) == valKey(tp[1]) && valKey(col.Elems[2]) == valKey(tp[2]) && valKey(col.Elems[3]) == "255"
-				why = "NRGBA must be {r, g, b, 255} of YCbCrToRGB positionally; got " + trunc(valKey(sa[3]), 160)
+		good := at != nil && conv != nil
+		why := "expected per pixel: YCbCrAt(j,i), color.YCbCrToRGB and one write of {r, g, b, 255} at (j,i)"
+		for _, ev := range cf.Calls {
+			if !(strings.HasSuffix(ev.Fn, ").YCbCrAt") || strings.HasSuffix(ev.Fn, "color.YCbCrToRGB") || strings.HasSuffix(ev.Fn, ").SetNRGBA") || strings.HasSuffix(ev.Fn, ".PixOffset")) {
+				good, why = false, "unexpected call "+ev.Fn
 			}
 		}
-		r.Check(good, rule, key, ws.Pos, "SetNRGBA(j, i, {YCbCrToRGB(Y,Cb,Cr), 255})", why)
+		if good {
+			aa, ca := realArgs(*at), realArgs(*conv)
+			px, _ := at.Res.(*Agg)
+			good = valKey(aa[0]) == "img" && isJI(aa, 1) && px != nil && len(ca) == 3 && valKey(ca[0]) == valKey(px.Elems[0]) && valKey(ca[1]) == valKey(px.Elems[1]) && valKey(ca[2]) == valKey(px.Elems[2])
+			why = "pixel must be read at (j,i) and converted with YCbCrToRGB(Y, Cb, Cr)"
+		}
+		if good {
+			tp, _ := conv.Res.(Tuple)
+			switch {
+			case set != nil && len(cf.Stores) == 0:
+				sa := realArgs(*set)
+				col, _ := sa[3].(*Agg)
+				good = valKey(sa[0]) == out && isJI(sa, 1) && col != nil && len(col.Elems) == 4 && len(tp) == 3 && valKey(col.Elems[0]) == valKey(tp[0]) && valKey(col.Elems[1]) == valKey(tp[1]) && valKey(col.Elems[2]) == valKey(tp[2]) && valKey(col.Elems[3]) == "255"
+				why = "NRGBA must be {r, g, b, 255} of YCbCrToRGB positionally, set at (j,i); got " + trunc(valKey(sa[3]), 160)
+			case set == nil && len(cf.Stores) == 4 && len(tp) == 3:
+				// direct stores out.Pix[PixOffset(j,i)+k] = r, g, b, 255 (what SetNRGBA does)
+				wantOut, okW := e.pixOffsetForm(ws.ParentSt, newEv.Res, imagePtrType(p, "NRGBA"), 4, j, i)
+				outPix := ""
+				if op, ok := newEv.Res.(*Ptr); ok && op.Cell != nil {
+					outPix = fmt.Sprintf("newimg#%d.Pix", op.Cell.ID)
+				}
+				wantV := []string{valKey(tp[0]), valKey(tp[1]), valKey(tp[2]), "255"}
+				seen := map[int64]bool{}
+				good = okW
+				for _, sv := range cf.Stores {
+					ptr := sv.Recv.(*Ptr)
+					idx, _ := sv.Args[3].(*Form)
+					m, isC := idx.Sub(wantOut).ConstInt()
+					if ptr.Base == nil || ptr.Base.Key != outPix || !isC || m < 0 || m > 3 || seen[m] || valKey(sv.Args[4]) != wantV[m] {
+						good, why = false, "the four bytes written are not {r, g, b, 255} at output.Pix[PixOffset(j,i)+0..3]"
+						break
+					}
+					seen[m] = true
+				}
+			default:
+				good, why = false, "the pixel is not written exactly once as {r, g, b, 255}"
+			}
+		}
+		r.Check(good, rule, key, ws.Pos, "output pixel (j,i) = NRGBA{YCbCrToRGB(Y,Cb,Cr), 255} (SetNRGBA or the four Pix bytes)", why)
 	default:
 		r.Undecide(rule, key, ws.Pos, "conversion arm "+arm+"→"+target+" is not in the checker's table of colour-model conversions")
 	}
